@@ -106,6 +106,14 @@ def run(ctx):
             # two OMEN levels listed with exactly the same probability
             spec = adjacent_ulp_spec(rng)
             spec['omen_prob'] = [['1', '0.27'], ['2', '0.27']]
+        if i == 2:
+            # whatever the seed: four letters, every transition at level 0 (lists of four characters per context), levels of 16 and 64
+            # strings; a quit before every single guess (below)
+            spec = C12.small_ruleset(rng, markov_pos=1)
+            L4 = ['a', 'b', 'c', 'd']
+            spec['omen'] = {'ngram': 2, 'alphabet': L4, 'ip': [[0, x] for x in L4], 'ep': [[0, x] for x in L4],
+                            'cp': [[0, x + y] for x in L4 for y in L4], 'ln': [10, 0, 1], 'keyspace': [[l, 1] for l in range(0, 19)]}
+            spec['omen_prob'] = [['1', '0.5'], ['0', '0.3']]
         if i == 5:
             # whatever the seed: one Markov level (target 2) that holds two lengths, both at length level 2 - a session resumed inside the
             # first length has to step on to the second one
@@ -126,6 +134,8 @@ def run(ctx):
         for ui in mk:
             n = len(units[ui][2])
             js = sorted({0, n - 1, n // 2, rng.randrange(n)} | ({rng.randrange(n) for _ in range(8)} if i % 3 == 2 else set())) if ctx.quick else range(n)
+            if i == 2 and n <= 90:
+                js = range(n)          # the first wide ruleset: a quit before every guess of every level, whatever the seed
             for j in js:
                 # session names of every shape (the .omn file name is derived from the .sav name)
                 sf = os.path.join(sdir, f"c15_{i}_{ui}_{j}{rng.choice(['', '', '_canvas', '_hashes', '_v', '.a', '_x.sav'])}.sav")
